@@ -9,5 +9,12 @@ while IFS="$(printf '\t')" read -r name prop expect; do
   [ -n "$only" ] && [ "$only" != "$prop" ] && continue
   scripts/mutant.sh "selftest/mutants/$name.diff" "$prop" "$expect" | head -1 || true
 done < selftest/mutants/INDEX.tsv | tee /tmp/selftest.$$ 
-grep -c '^CAUGHT' /tmp/selftest.$$; if grep -q '^MISSED' /tmp/selftest.$$; then fail=1; fi; rm -f /tmp/selftest.$$
+if [ -f selftest/silent/INDEX.tsv ]; then
+while IFS="$(printf '\t')" read -r name prop expect; do
+  [ -z "$name" ] && continue
+  [ -n "$only" ] && [ "$only" != "$prop" ] && continue
+  scripts/silent.sh "selftest/silent/$name.diff" "$prop" | head -1 || true
+done < selftest/silent/INDEX.tsv | tee -a /tmp/selftest.$$
+fi
+grep -c '^CAUGHT\|^SILENT' /tmp/selftest.$$; if grep -q '^FALSE-ALARM' /tmp/selftest.$$; then fail=1; fi; if grep -q '^MISSED' /tmp/selftest.$$; then fail=1; fi; rm -f /tmp/selftest.$$
 exit $fail
